@@ -468,6 +468,48 @@ def isolation_probe(ck: Check, n: int):
                 ck.fail(f"force_consistency accepted {bad}", {"check": "consistency_rejects"}, {"kind": "consistency"})
             except ValueError:
                 pass
+        # ... also when the droplets arrive through ANOTHER collection (extend / constructor), whatever that collection declares:
+        # its members are checked one by one
+        for src_name, src in (("mixed layouts, first member matches", [SphericalDroplet(np.zeros(2), 1.0), DiffuseDroplet(np.ones(2), 1.0, 0.1)]),
+                              ("mixed dimensions, first member matches", [SphericalDroplet(np.zeros(2), 1.0), SphericalDroplet(np.zeros(3), 1.0)])):
+            for how in ("extend with an Emulsion", "extend with a list", "constructor with an Emulsion"):
+                tgt = Emulsion([SphericalDroplet(np.zeros(2), 2.0)])
+                try:
+                    source = Emulsion(src) if "Emulsion" in how else list(src)
+                    if how.startswith("extend"):
+                        tgt.extend(source, force_consistency=True)
+                        got = list(tgt)
+                    else:
+                        got = list(Emulsion(source, force_consistency=True))
+                    if len({(type(x).__name__, x.dim) for x in got}) > 1:
+                        ck.fail(f"force_consistency accepted droplets of different layout/dimension ({how}; {src_name}): {[str(x) for x in got]}",
+                                {"check": "consistency_rejects", "how": how}, {"kind": "consistency", "how": how, "source": src_name})
+                except ValueError:
+                    pass
+        # remove overlaps = the list model (closest offending pair first, its smaller member goes; C10's verified loop): chains A-B-C
+        from .c10 import emulsion_case
+
+        rq, ex = [], []
+        for k in range(6):
+            dim = 1 + k % 2
+            e0 = np.eye(dim)[0]
+            radii = [3.0, 2.0, 1.0] if k % 3 else [1.0, 2.0, 3.0, 2.5]
+            pos, x = [], 0.0
+            for i, r in enumerate(radii):
+                if i:
+                    x += radii[i - 1] + r - rng.uniform(0.1, 0.4)  # overlaps its predecessor only
+                pos.append(x)
+            drops = [SphericalDroplet(p * e0, r) for p, r in zip(pos, radii)]
+            case = {"kind": "overlap-chain", "dim": dim, "droplets": [[d_.position.tolist(), d_.radius] for d_ in drops]}
+            ck.case(("overlap-chain", k, tuple(pos)))
+            emulsion_case(ck, rq, ex, drops, 0.0, None, {"gen": "chain", "dim": dim}, case)
+        try:
+            for (case, surv, pops), out in zip(ex, run_driver(rq)):
+                left, _, right = out[2:].partition("|")
+                if not out.startswith("ok") or [int(x) for x in left.split()] != surv:
+                    ck.mismatch("c20-remove-overlaps", f"remove_overlapping keeps {surv}; the list model keeps {out}", case)
+        except RuntimeError as e:
+            ck.mismatch("c20-remove-overlaps", f"driver unavailable: {e}", {})
         try:
             tr.append(SphericalDroplet(np.zeros(3), 1.0), 1)
             if tr.dim != 3:
